@@ -2860,10 +2860,12 @@ def module_anchors(ogp, pred):
         for t in find_templates(v, pred):
             size = [0]
             walk(v, lambda x: size.__setitem__(0, size[0] + 1) if x[0] == 'tmpl' else None)
-            sites.setdefault(t[1], []).append((t[3] != q, size[0], q, t))
+            # a function that is handed ready-made token streams (pieces its caller computed from the module) does not show where they come
+            # from: its caller is the better anchor
+            sites.setdefault(t[1], []).append((ogp.crate.receives(q, 'TokenStream'), t[3] != q, size[0], q, t))
     out = []
     for tid, cands in sites.items():
-        _, _, q, t = sorted(cands, key=lambda c: c[:3])[0]
+        _, _, _, q, t = sorted(cands, key=lambda c: c[:4])[0]
         out.append((q, t))
     return out
 
